@@ -221,6 +221,94 @@ def tr_pending(mod):
     return keys.pop()
 
 
+WATCHED = ("_options", "_export_options")
+COPYING_CALLS = {"set", "dict", "sorted", "list", "tuple", "frozenset", "len", "bool", "pickle_dumps"}
+READ_METHODS = {"get", "keys", "items", "values", "copy", "union", "issubset", "issuperset", "isdisjoint"}
+
+
+def tr_immutable(relpath, mod):
+    """Every access to `<obj>._options` / `<obj>._export_options` in this module must be one of a closed set
+    of uses that neither write, mutate nor alias the object: the expression model is a value and its cached
+    hash stays the hash of its fields only if nothing changes them after construction."""
+    parent = {}
+    for n in ast.walk(mod):
+        for c in ast.iter_child_nodes(n):
+            parent[c] = n
+
+    def enclosing(n):
+        fn = cls = None
+        while n in parent:
+            n = parent[n]
+            if fn is None and isinstance(n, (ast.FunctionDef, ast.AsyncFunctionDef)):
+                fn = n.name
+            if cls is None and isinstance(n, ast.ClassDef):
+                cls = n.name
+        return cls, fn
+
+    count = 0
+    for n in ast.walk(mod):
+        if not (isinstance(n, ast.Attribute) and n.attr in WATCHED):
+            continue
+        count += 1
+        cls, fn = enclosing(n)
+        where = f"{relpath}:{n.lineno} ({cls}.{fn}): {src(parent[n])[:90]!r}"
+        p = parent[n]
+        if isinstance(n.ctx, ast.Store):
+            if src(n.value) == "self" and fn in ("__init__", "__setstate__") and isinstance(p, (ast.Assign, ast.AnnAssign)):
+                continue
+            fail(f"{n.attr} is assigned outside a constructor: {where}", n)
+        if not isinstance(n.ctx, ast.Load):
+            fail(f"{n.attr} is deleted: {where}", n)
+        if isinstance(p, ast.BinOp) and isinstance(p.op, ast.BitOr) and not isinstance(parent.get(p), ast.AugAssign):
+            continue                                              # a | b builds a new set
+        if isinstance(p, ast.BinOp) and isinstance(p.op, ast.BitOr) and parent[p].value is p:
+            continue                                              # x |= a | b : still a new right-hand side
+        if isinstance(p, ast.Dict) and n in p.values:
+            k = p.keys[p.values.index(n)]
+            if k is None or fn == "__getstate__":
+                continue                                          # {**d} copies; __getstate__ hands it to pickle
+        if isinstance(p, ast.Call) and n in p.args and src(p.func) in COPYING_CALLS:
+            continue
+        if isinstance(p, ast.Attribute) and p.value is n and isinstance(parent.get(p), ast.Call) \
+                and parent[p].func is p:
+            if p.attr in READ_METHODS:
+                continue
+            if p.attr == "add" and relpath == "redun/task.py" and (cls, fn) == ("Task", "_validate") \
+                    and src(n.value) == "self":
+                continue                                          # the Task's own set, while it is being constructed
+        if isinstance(p, (ast.Compare, ast.BoolOp, ast.If, ast.IfExp, ast.While)) \
+                or (isinstance(p, ast.UnaryOp) and isinstance(p.op, ast.Not)):
+            continue
+        if isinstance(p, ast.Subscript) and p.value is n and isinstance(p.ctx, ast.Load):
+            continue
+        if isinstance(p, ast.Tuple) and isinstance(parent.get(p), ast.Call) \
+                and src(parent[p].func) == "iter_nested_value":
+            continue                                              # read-only traversal
+        if isinstance(p, ast.keyword) and p.arg in ("task_options", "export_options") and src(n.value) == "self" \
+                and relpath == "redun/task.py" and fn == "__call__" \
+                and src(parent[p].func) in ("TaskExpression", "SchedulerExpression"):
+            continue                                              # Task.__call__ hands its own (never mutated) containers over
+        fail(f"unrecognised use of an expression's {n.attr} (it may be written, mutated or aliased after the "
+             f"hash was cached): {where}", n)
+    return count
+
+
+def tr_all_immutable():
+    from .astutil import REPO
+    total = 0
+    for path in sorted((REPO / "redun").rglob("*.py")):
+        rel = str(path.relative_to(REPO))
+        if "/tests/" in rel:
+            continue
+        text = path.read_text()
+        if "_options" not in text:
+            continue
+        total += tr_immutable(rel, ast.parse(text, filename=rel))
+    if total < 10:
+        fail("the accesses to _options/_export_options were not found where expected")
+    return True
+
+
 def cq(s: str) -> str:
     if not (s.isascii() and s.isprintable()):
         fail(f"non-printable text in extracted expression {s!r}")
@@ -263,6 +351,7 @@ def translate(pins: dict | None = None):
     gs = [(c, getstate_table(classes[c])) for c in ("Expression", "TaskExpression", "SimpleExpression", "ValueExpression")]
     ss = [(c, setstate_table(classes[c])) for c in ("Expression", "TaskExpression", "SimpleExpression", "ValueExpression")]
     pending = tr_pending(load("redun/scheduler.py"))
+    fixed_fields = tr_all_immutable()
 
     mods = {"redun/expression.py": mod}
     got = {}
@@ -308,7 +397,8 @@ def translate(pins: dict | None = None):
          f"  ed_get_hash_cached := {'true' if cached else 'false'};",
          f"  ed_getstate :=\n    {table(gs)};",
          f"  ed_setstate :=\n    {table(ss)};",
-         f"  ed_pending_key := {cq(pending)}",
+         f"  ed_pending_key := {cq(pending)};",
+         f"  ed_fields_fixed_after_construction := {'true' if fixed_fields else 'false'}",
          "|}.",
          f"(* the theorems of Props/C18.v are about [describe_expr ve]; the source is in variant ve={ve} *)",
          f"Lemma C18_tie : gen = describe_expr {ve}.",
